@@ -85,7 +85,7 @@ claim("C16", "constant tables vs WinZip AE-x; generic-argument facts; path-enume
 claim("C17", "must-pass-through (validation before emission); placement provenance; constant table of reserved ids vs APPNOTE; predicate agreement between the padding guard and the self-check",
       N + "Extra data is validated before any emission; buffered verbatim; local emission iff not central-only with data_start advanced and the local extra-length field re-patched at its APPNOTE offset; local part "
       "cleared before the central part; rejection rows with a complete scan of a reserved-id table covering APPNOTE 4.5.2/4.6.1; alignment: validated path, pad/self-check predicate agreement, pad record length, return value.",
-      "NOT decided: the modular-arithmetic identity that makes the padded offset a multiple of align (a solver's job, not this family's).", "DESIGN.md §3 C17")
+      "The pad-length identity is decided by evaluating the pad expression reconstructed from the MIR on a grid of (align, offset) pairs (agreement on the grid is taken as the identity; stated in the evidence). Residue: the alignment of the bytes actually produced for every preceding archive state.", "DESIGN.md §3 C17, §9.6")
 claim("C18", "bit-field table extraction (mask/shift/scale/offset) from MIR and comparison with the MS-DOS layout; path-enumerated range table; interval/guard invariant on constructions; panic inventory",
       N + "from_msdos and timepart/datepart are mutually inverse tables covering all 32 bits (bijective without enumeration); the checked constructor accepts exactly the documented ranges; TryFrom guards the year on the "
       "value it stores; every DateTime construction has year in [1980, 2107], discharging `year - 1980`; fields private; to_time propagates errors. Also: extra-length guard is the field capacity and its back-patch a checked conversion; absolute seeks / return to the recorded data start; the reader computes the reported data start in 64 bits. Also: from_msdos' bit fields evaluated on all 65536 words against the MS-DOS layout; no function assigns ZipFileData.last_modified_time after parsing; raw copies and append re-emit the recorded words unconditionally.",
@@ -145,10 +145,43 @@ TECH_ADD.update({
     "C01": _VF + " for the openers' options; reviewed refusal inventory",
     "C02": "reviewed refusal inventory; clamp/narrowing provenance in 64-bit fields",
     "C03": "reviewed refusal inventory; exhaustive evaluation of flag-bit extraction over the 16-bit flags word",
-    "C06": "bounded abstract exploration of the component walk (value flow with a concrete depth counter) over every component sequence up to length 3, compared with the reference walk",
+    "C06": "bounded abstract exploration of the component walk (value flow with a concrete depth counter) over every component sequence up to length 4 (5 in the thorough tier), compared with the reference walk",
     "C07": "C06's exploration; path-enumerated mode table of the metadata phase",
     "C12": "reviewed refusal inventory (writer side)",
     "C14": _VF + " for the options value reaching start_entry",
     "C15": "ownership-as-typestate (signature facts: finish consumes self; who-may-project into ZipCryptoWriter); evaluation of reconstructed key-schedule expressions on sample points",
     "C18": _VF + " for the openers' options",
 })
+
+
+# Round 8 + mechanical mutation sweep (session 6): rules added after 60 fresh seeded changes and a sweep of 1095 first-order syntactic mutants
+_XW = ("Round 8: the reader's walk over an extra field stays on record boundaries -- on every one-iteration path bytes consumed + bytes skipped == the record's len "
+       "(E9 exploration with a call trace); this found and led to the repair of F14 (the AE-x arm skipped 7 bytes too many).")
+_LF = ("Round 8: the central header's name / extra / comment length fields equal, as linear forms, the bytes of the runs emitted behind the fixed part; the ZIP64 serialiser's returned "
+       "count equals the bytes it wrote on every path; the local header announces a ZIP64 placeholder exactly on the paths that write it.")
+for _pid, _txt in {
+    "C01": _LF + " The per-entry accounting step adds each accepted chunk (bytes_written += len, hasher.update(chunk)); end_extra_data advances the accounting start with the data start; the option builders store their argument in the field they name; raw-copy defaults are zeros; the record pushed by start_entry has no extra data and no comment; the ZIP64 back-patch offset is header_start + 30 + len(name) + 4 as a linear form.",
+    "C02": _LF + " zip64_extension() is the disjunction of its three 32-bit overflow tests; the end-record ZIP64 condition is established on EVERY way of skipping the ZIP64 records.",
+    "C03": _XW + " Disk numbers that differ are refused and equal ones accepted; record_too_small() is the disjunction of the six sentinel tests; both record searches step by one; the locator probe is End(-(42 + len(comment))) as a linear form; the archive offset has no alternative value; version_made_by() is (v/10, v%10), is_empty() is len()==0, the named method constants carry their APPNOTE 4.4.5 codes.",
+    "C05": "Round 8: a loop exit mediated by a boolean that is set on the arms of a match on the read result counts as consume-or-exit.",
+    "C06": "Round 8: the separator normalisation of mangled_name is unconditional (no fast path that keeps the name as it came).",
+    "C07": "Round 8: on every successful path a directory entry is created with create_dir_all, a file entry gets its file, and a missing parent directory is created before the file; unix_mode() of Unix-made entries is attrs >> 16 untouched by DOS bits.",
+    "C08": _XW + " " + _LF + " Skip-implies-fits holds on every way of skipping the ZIP64 end records; new_append reads the entry count from the ZIP64-aware parser.",
+    "C10": _XW + " is_dir() of both readers' metadata is decided as a truth table over the last character ('/', '\\', other, empty name).",
+    "C11": "Round 8: an I/O Result stored in a variable is examined before that variable is assigned again or dropped (flow-sensitive; catches `r = write(a); r = write(b)` across a loop's back edge); a taken-out compressor / sink is never put back on a path that is committed to an error return; a read failure while locating an entry stays an I/O error.",
+    "C12": "Round 8: the level's range membership may be tested by a Result-returning helper (decided on its edges); validate_extra_data examines every record (Ok only when nothing is left) and compares size with what is left after the 4 header bytes.",
+    "C13": _XW + " " + _LF,
+    "C14": "Round 8: a raw copy's record starts without extra data (the local header announces none it does not write); the local ZIP64 record of a copied large entry carries its sizes.",
+    "C15": "Round 8: the public FileOptionsExt::with_deprecated_encryption hands the caller's password on verbatim; the (password, encrypted) table of the opener is also decided on the value flow.",
+    "C16": _XW + " The decoder behind the AES reader is the reviewed plain constructor.",
+    "C17": "Round 8: the pad-length identity (data_start + 4 + pad) % align == 0 with pad < align holds at every point of an (align, offset) grid for the pad expression reconstructed from the MIR; the pad record is written completely (id, length, pad); the self-check compares with zero; the accounting start follows the data start.",
+    "C18": "Round 8: TryFrom<OffsetDateTime> stores each calendar accessor's value verbatim (nothing computed from it); range rejections built by an inlined helper and propagated with `?` are read as the same range table.",
+}.items():
+    ADDENDA[_pid] = (ADDENDA.get(_pid, "") + " " + _txt).strip()
+TECH_ADD.update({k_: (TECH_ADD.get(k_, "") + ("; " if TECH_ADD.get(k_) else "") + v_) for k_, v_ in {
+    "C02": "linear-form comparison of announced length fields with emitted byte runs on the codec tables; value-flow exploration of the ZIP64 serialiser (returned count vs bytes written)",
+    "C03": "one-iteration value-flow exploration of the extra-field walk with a call trace (consumed + skipped == len); disjunction tables decided on the value flow",
+    "C08": "the extra-field walk and length-field rules of C03 / C02",
+    "C11": "flow-sensitive def/use/kill analysis of Result-holding locals",
+    "C17": "evaluation of the reconstructed pad-length expression on a grid of (align, offset) pairs",
+}.items()})
